@@ -71,7 +71,11 @@ def run(ctx, prop, props_module=None, extra_random=None):
     ok_names = [n for n, v in info.items() if v["error"] is None]
     for n, v in info.items():
         ctx.count("family " + ("enumerated" if not n.startswith("R") else "seeded-random"))
-        if v["error"] is not None:
+        if v["error"] is not None and v["error"].startswith("build:"):
+            # the real constructor / code generator raises on a valid configuration: that configuration is the failing input
+            ctx.violation(f"TensorProduct/constructor-raises/{n}", {"config": v["cfg"].describe(), "error": v["error"],
+                          "call": "o3.TensorProduct(irreps_in1, irreps_in2, irreps_out, instructions, ...) under jit_script_fx=False"}, True)
+        elif v["error"] is not None:
             ctx.obligation(f"translate:{n}", False, v["error"] + " :: " + v["cfg"].describe())
     # ---- certificates ------------------------------------------------------------------------------------------
     targets = [f"E3nnVerif.Cert.TP.{prop}.All"] + [f"E3nnVerif.Cert.TP.{prop}.{n}" for n in ok_names if n.startswith("R")]
